@@ -34,6 +34,10 @@ def load_findings():
     with open(KF_FILE) as f:
         return json.load(f).get('findings', [])
 
+def open_findings_env():
+    """VERIF_OPEN_FINDINGS value: ids of open findings; 'ID!C06!C08' = the input class of ID is NOT excluded for C06 and C08 (their oracles are unaffected by it)"""
+    return ' '.join(k['id'] + ''.join('!' + p for p in k.get('not_excluded_for', [])) for k in open_findings())
+
 def open_findings(prop=None):
     return [k for k in load_findings() if k.get('status') == 'open' and (prop is None or prop in k.get('properties', [k.get('property')]))]
 
@@ -191,7 +195,7 @@ def _run_pbt_round(prop, bins, n_total, size, shards, tier, extra_env, prop_arg,
     os.makedirs(WORK, exist_ok=True)
     per = max(1, n_total // shards)
     s0 = seed()
-    opens = ' '.join(k['id'] for k in open_findings())
+    opens = open_findings_env()
     procs = []
     for i in range(shards):
         st = os.path.join(WORK, 'stats-%s-%d-%d.json' % (prop, os.getpid(), i))
@@ -258,7 +262,7 @@ def run_batch_shards(prop, bins, paths, shards, tier, extra_env=None, prop_arg=N
     if not paths:
         return merged
     shards = max(1, min(shards, len(paths)))
-    opens = ' '.join(k['id'] for k in open_findings())
+    opens = open_findings_env()
     procs = []
     for i in range(shards):
         part = paths[i::shards]
@@ -339,7 +343,7 @@ def finish(prop, tier, level, res, cov, t0, floor=2, assumptions=None):
         if k.get('repro') and os.path.exists(rp):
             try:
                 bins = B.build('asan', ('replay',), quiet=True)
-                rc, out = run_replay(bins['replay'], rp, None, {'VERIF_OPEN_FINDINGS': ' '.join(x['id'] for x in open_findings())})
+                rc, out = run_replay(bins['replay'], rp, None, {'VERIF_OPEN_FINDINGS': open_findings_env()})
                 repro[k['id']] = 'reproduces' if rc == 4 or 'skipped-declared-data-beyond-file' in out else 'directed reproduction exits %s' % rc
             except Exception as e:
                 repro[k['id']] = 'not replayed: %s' % str(e)[:100]
@@ -386,7 +390,7 @@ def generic_pbt(prop, tier, n_quick, n_thorough, size_quick=100, size_thorough=1
         mb = run_batch_shards(prop, bins, saved, shards, tier, extra_env=extra_env, prop_arg=prop_arg)
         merge_stats(m, mb)
         extra_cov = dict(extra_cov or {}); extra_cov['saved_or_enumerated_cases'] = len(saved)
-    opens = ' '.join(k['id'] for k in open_findings())
+    opens = open_findings_env()
     env = {'VERIF_TIER': tier, 'VERIF_OPEN_FINDINGS': opens}
     if extra_env:
         env.update(extra_env)
@@ -449,7 +453,7 @@ def run_fuzz(prop, target, seeds, budget_s, jobs, tier, max_len, res, cov, props
     for j in range(jobs):
         cdir = os.path.join(root, 'corpus%d' % j); odir = os.path.join(root, 'out%d' % j)
         shutil.copytree(os.path.join(root, 'seeds'), cdir); os.makedirs(odir)
-        env = base_env({'VERIF_FUZZ_OUT': odir, 'VERIF_TIER': tier, 'VERIF_OPEN_FINDINGS': ' '.join(k['id'] for k in open_findings())})
+        env = base_env({'VERIF_FUZZ_OUT': odir, 'VERIF_TIER': tier, 'VERIF_OPEN_FINDINGS': open_findings_env()})
         env['ASAN_OPTIONS'] = ASAN_OPTS.replace('exitcode=99', 'exitcode=77').replace('hard_rss_limit_mb=6144', 'hard_rss_limit_mb=3072')
         cmd = [fz[target], '-max_len=%d' % max_len, '-seed=%d' % (seed() * 100 + j + 1), '-max_total_time=%d' % budget_s, '-timeout=20', '-rss_limit_mb=3000',
                '-artifact_prefix=' + odir + '/', '-print_final_stats=1', cdir]
@@ -481,7 +485,7 @@ def run_fuzz(prop, target, seeds, budget_s, jobs, tier, max_len, res, cov, props
                     raw = f.read()
                 text = 'property: %s\nbytes %s\nload\n' % (prop, ' '.join(str(b) for b in raw))
                 fails.append((text, 'sanitizer crash in fuzz target: ' + ' '.join(l for l in out.splitlines() if 'ERROR' in l or 'SUMMARY' in l)[:300], True))
-    opens = ' '.join(k['id'] for k in open_findings())
+    opens = open_findings_env()
     seen = set()
     for text, msg, crash in fails:
         if text in seen:
@@ -499,7 +503,7 @@ def run_fuzz(prop, target, seeds, budget_s, jobs, tier, max_len, res, cov, props
 def cmd_replay(prop, path):
     flavour = 'asan'
     bins = B.build(flavour, ('replay',))
-    opens = ' '.join(k['id'] for k in open_findings())
+    opens = open_findings_env()
     rc, out = run_replay(bins['replay'], path, prop, {'VERIF_OPEN_FINDINGS': opens})
     sys.stdout.write(out)
     if rc == 1 or is_crash(rc, out):
